@@ -131,6 +131,13 @@ def run_case(ctx, sc, req, allowed, variant, rnd):
     ext = EXT[fmt][variant % len(EXT[fmt])]
     pix, sky = good_lists()
     items = {'ds9': list(pix) + (list(sky) if variant % 2 else []), 'crtf': list(sky), 'fits': list(pix)}[fmt]
+    if fmt != 'fits' and variant % 4 >= 2:
+        # text outside ASCII is ordinary content: it must reach the file (or the file must stay as it was)
+        import astropy.units as u  # noqa
+        from astropy.coordinates import SkyCoord
+
+        import regions as R
+        items.append(R.TextSkyRegion(SkyCoord(12, 22, unit='deg'), '\u03b1 Cen \u2013 caf\u00e9'))
     opts = {}
     how = 'Regions'
     inject = None
